@@ -154,17 +154,17 @@ def valid_context(rng, entry):
             m = rng.choice(['JACCARD', 'COSINE', 'DICE', 'OVERLAP', 'EDIT_DISTANCE'])
             if m == 'EDIT_DISTANCE':
                 call['tok'] = gen.random_tokenizer(rng, qgram_only=True)
-            call['filter'] = {'kind': kind, 'measure': m,
+            call['filter'] = {'kind': kind, 'measure': m, 'measure_spelling': gen.spell(rng, m),
                               'threshold': (rng.choice([1, 2]) if m == 'OVERLAP' else
                                             rng.choice([0, 1, 2]) if m == 'EDIT_DISTANCE' else
                                             gen.random_threshold(rng))}
         call['api'] = {'new': 'filter_new', 'ft': 'filter_tables'}.get(entry.split(':')[0], 'filter_candset')
         if call['api'] == 'filter_candset':
-            call['candset'] = gen.random_candset(rng, L, R, 'lid', 'rid', size=rng.choice([2, 5, 9]))
+            call['candset'] = gen.random_candset(rng, L, R, 'lid', 'rid', size=rng.choice([0, 0, 2, 5, 9]))
             call['c_l_key'], call['c_r_key'] = 'l_lid', 'r_rid'
     elif entry == 'apply_matcher':
         call['api'] = 'apply_matcher'
-        call['candset'] = gen.random_candset(rng, L, R, 'lid', 'rid', size=rng.choice([2, 5, 9]))
+        call['candset'] = gen.random_candset(rng, L, R, 'lid', 'rid', size=rng.choice([0, 0, 2, 5, 9]))
         call['c_l_key'], call['c_r_key'] = 'l_lid', 'r_rid'
         call['sim'] = rng.choice(['JACCARD', 'OVERLAP'])
         call['threshold'] = 0.5
@@ -196,8 +196,8 @@ def make_invalid(rng, entry, kind, call, objs):
         if entry == 'edit_distance_join' and bad is None:
             objs['tok'] = 5
     elif kind == 'bad_measure':
-        call['filter'] = dict(call['filter'], measure=rng.choice(['JACCARDX', 'overlap_coefficient',
-                                                                  'LEVENSHTEIN', '', 'tfidf']))
+        call['filter'] = dict(call['filter'], measure_spelling=None,
+                              measure=rng.choice(['JACCARDX', 'overlap_coefficient', 'LEVENSHTEIN', '', 'tfidf']))
     elif kind in ('unknown_l_key', 'unknown_r_key'):
         call[side + '_key'] = 'no_such_key'
     elif kind in ('unknown_l_attr', 'unknown_r_attr'):
@@ -256,7 +256,8 @@ def make_invalid(rng, entry, kind, call, objs):
             call['comp_op'] = rng.choice(['<=', '<', '!=', 'ge', ''])
     elif kind == 'ed_non_qgram':
         if 'filter' in call:
-            call['filter'] = dict(call['filter'], measure='EDIT_DISTANCE', threshold=rng.choice([0, 1, 2]))
+            call['filter'] = dict(call['filter'], measure='EDIT_DISTANCE', threshold=rng.choice([0, 1, 2]),
+                                  measure_spelling=gen.spell(rng, 'EDIT_DISTANCE'))
         call['tok'] = dict(rng.choice([{'kind': 'ws'}, {'kind': 'alnum'}, {'kind': 'delim', 'delims': [',']}]),
                            return_set=rng.random() < 0.5)
     elif kind in ('unknown_c_l_key', 'unknown_c_r_key'):
